@@ -134,10 +134,77 @@ def runner_level(ctx, corr):
         shutil.rmtree(d, ignore_errors=True)
 
 
+def running_loop_level(ctx, corr):
+    """a doctest with top-level await started from INSIDE a running event loop cannot run: it must be
+    recorded as a failure (ExistingEventLoopError), rendered, and stop there -- for both on_error modes"""
+    import asyncio
+    from ..corr import runloop
+    from .. import driver
+    cases = []
+    for pre in (0, 1, 2):
+        for post in (0, 1):
+            for form in ('w%d = await aw(t(%d))', 'await aw(t(%d))'):
+                for oe in ('return', 'raise'):
+                    # earlier statements carry a want, so they are parts of their own (a part that
+                    # contains an await is not started at all inside a running loop)
+                    lines = []
+                    for k in range(pre):
+                        lines += ['>>> print(t(%d))' % k, '%d' % k]
+                    k = pre
+                    lines.append('>>> ' + (form % ((k, k) if form.count('%d') == 2 else (k,))))
+                    if post:
+                        # prose in between: the later statements are a chunk (hence a part) of their own
+                        lines += ['', 'some prose', '']
+                    lines += ['>>> y%d = t(%d)' % (j, j) for j in range(k + 1, k + 1 + post)]
+                    cases.append(('\n'.join(lines) + '\n', oe, list(range(pre))))
+
+    async def inside(text, oe):
+        return runloop.observe(text, on_error=oe)
+
+    obs = []
+    for text, oe, T in cases:
+        o = asyncio.run(inside(text, oe))
+        obs.append(o)
+    answers = driver.run_lines([o['line'] for o in obs if o.get('parse') == 'ok'])
+    ai = 0
+    for (text, oe, T), o in zip(cases, obs):
+        corr.count('running-loop')
+        inp = {'text': text, 'run': {'on_error': oe}, 'inside_running_loop': True}
+        if o.get('parse') != 'ok':
+            corr.expect_fail('running-loop', inp, 'parsed', o.get('parse'), 'not parsed')
+            continue
+        m = runloop.normalize_model_answer(answers[ai])
+        ai += 1
+        corr.nontriv(('loop', text, oe))
+        corr.tag('running-loop:' + str(o['kind']))
+        if m != o['obs']:
+            corr.disagree('running-loop', inp, m, o['obs'])
+        why = []
+        if o['pfs'] != '010' or o['kind'] != 'loop':
+            why.append('passed/failed/skipped=%s kind=%s, expected a recorded ExistingEventLoopError failure' % (o['pfs'], o['kind']))
+        if o['T'] != T:
+            why.append('TRACE %r, expected %r' % (o['T'], T))
+        if oe == 'return' and o['ending'] != 'returned':
+            why.append('run(on_error="return") ended with %s' % o['ending'])
+        if oe == 'raise' and not str(o['ending']).startswith('raised'):
+            why.append('run(on_error="raise") ended with %s' % o['ending'])
+        if not why:
+            try:
+                txt = '\n'.join(o['ex'].repr_failure())
+                if 'ExistingEventLoopError' not in txt:
+                    why.append('failure report does not name ExistingEventLoopError')
+            except Exception as ex:
+                why.append('repr_failure() raised %r' % (ex,))
+        if why:
+            corr.expect_fail('running-loop', inp, {'pfs': '010', 'kind': 'loop', 'T': T},
+                             {k: o.get(k) for k in ('pfs', 'kind', 'T', 'ending')}, '; '.join(why))
+
+
 def correspondence(ctx, corr):
     common.run_family(ctx, corr, 'c09_matrix', {'verbose': [0] if ctx.quick else [0, 1, 2, 3]})
     common.run_family(ctx, corr, 'c09_helper_sweep', {'verbose': [0] if ctx.quick else [0, 2], 'max_extra': 6 if ctx.quick else 12})
     corr.exhaustive = True
+    running_loop_level(ctx, corr)
     runner_level(ctx, corr)
 
 
@@ -166,6 +233,18 @@ def replay_finding(ctx, finding):
 
 
 def replay(ctx, failing):
+    if failing.get('input', {}).get('inside_running_loop'):
+        import asyncio
+        from ..corr import runloop
+        inp = failing['input']
+
+        async def inside():
+            return runloop.observe(inp['text'], on_error=inp['run']['on_error'])
+        o = asyncio.run(inside())
+        print(inp['text'])
+        print('observed inside a running loop: pfs=%s kind=%s T=%r ending=%s' % (o.get('pfs'), o.get('kind'), o.get('T'), o.get('ending')))
+        exp = failing.get('expected') or {}
+        return o.get('pfs') != exp.get('pfs') or o.get('kind') != exp.get('kind') or o.get('T') != exp.get('T')
     if 'text' in failing.get('input', {}):
         return common.replay_scenario(failing)
     print('runner-level case: %r -> expected %r, observed %r' % (failing.get('input', {}).get('fault'), failing.get('expected'), failing.get('impl')))
